@@ -42,6 +42,10 @@ ASSUMPTIONS = ["adj_covband >= -1 (LocalNetwork::set_adj_covband clamps; gama-lo
 _spec = importlib.util.spec_from_file_location("c12_sites", str(VERIF / "tools" / "gen" / "c12_sites.py"))
 _tr = importlib.util.module_from_spec(_spec)
 _spec.loader.exec_module(_tr)
+_spec3 = importlib.util.spec_from_file_location("c12_skeleton", str(VERIF / "tools" / "gen" / "c12_skeleton.py"))
+_sk = importlib.util.module_from_spec(_spec3)
+_spec3.loader.exec_module(_sk)
+_tr = _sk.S          # one module object for c12_sites (its SitesError is the base of SkError)
 _spec2 = importlib.util.spec_from_file_location("c13_nets", str(VERIF / "tools" / "gen" / "c13_nets.py"))
 N = importlib.util.module_from_spec(_spec2)
 _spec2.loader.exec_module(N)
@@ -61,6 +65,16 @@ def translate(ctx):
     if not out.exists() or out.read_text() != txt:
         out.write_text(txt)
     ctx.c12_escmap, ctx.c12_sites = escmap, sites
+    try:
+        txt2, info = _sk.generate(ctx.repo)
+    except _tr.SitesError as e:
+        raise TieBroken("c12_skeleton", str(e))
+    except OSError as e:
+        raise TieBroken("c12_skeleton", f"source not readable: {e}")
+    out2 = LEAN / "Gama" / "Gen" / "XmlSkeleton.lean"
+    if not out2.exists() or out2.read_text() != txt2:
+        out2.write_text(txt2)
+    ctx.c12_skeleton = info
 
 
 # ---------------------------------------------------------------- helpers
@@ -947,6 +961,30 @@ def _cmp_leaves(model_tokens, xml_leaves, tol_default):
     return None
 
 
+_TOK = re.compile(r"<!--(.*?)-->|<\?(.*?)\?>|</([^\s>]+)\s*>|<([^\s/>]+)((?:\s+[^\s=/>]+=\"[^\"]*\")*)\s*(/?)>|([^<]+)", re.S)
+
+
+def doc_tokens(text):
+    """token shapes of a document (white-space-only character data omitted), or None if the text is not made of tokens"""
+    out, pos = [], 0
+    for m in _TOK.finditer(text):
+        if m.start() != pos:
+            return None
+        pos = m.end()
+        if m.group(1) is not None:
+            out.append("C")
+        elif m.group(2) is not None:
+            out.append("D")
+        elif m.group(3) is not None:
+            out += ["E", m.group(3)]
+        elif m.group(4) is not None:
+            names = re.findall(r"([^\s=]+)=\"", m.group(5) or "")
+            out += ["S", m.group(4), "1" if m.group(6) else "0"] + [v for n in names for v in ("A", n)]
+        elif m.group(7).strip():
+            out.append("T")
+    return out if pos == len(text) else None
+
+
 def _recs_op(name, head, recs):
     """R tag L tag hexdata …"""
     t = [name] + head
@@ -1021,6 +1059,9 @@ def records_stream(ctx, corr, exe, wd, good):
         ops.append([_recs_op("robs", [], obs)])
         m["read"] = len(ops)
         ops.append([f"read {path}"])
+        toks = doc_tokens(xml_bytes.decode("utf-8", "replace"))
+        m["doc"] = len(ops)
+        ops.append(["doc " + " ".join(toks)] if toks is not None else ["doc ?"])
         m["n_ori"], m["mirror"] = len(d["ori"]), hex2float(ys) < 0
         meta.append(m)
     model, _ = run_cases(ctx.driver("drv_xml"), ops)
@@ -1088,6 +1129,13 @@ def records_stream(ctx, corr, exe, wd, good):
             corr.count("wcov_flt", len(mv))
         if why:
             corr.disagree("wcov", [ops[m["w"]["cov"]][0][:300], {"gkf": m["gkf"]}], [why], [l[:300] for l in out])
+        # ---- the regenerated skeleton accepts the real document's token sequence
+        corr.case(key=("doc", m["i"]))
+        got = model[m["doc"]]
+        if not got or not got[0].startswith("accepts 1"):
+            corr.disagree("doc", [ops[m["doc"]][0][:300], {"gkf": m["gkf"]}], ["the document LocalNetworkXML::write produced"], got[:2])
+        else:
+            corr.count("doc_tokens", int(got[0].split()[2]))
         # ---- reader model vs the real reader on the same document
         j = m["read"]
         if j in crashes:
